@@ -1059,6 +1059,7 @@ func (fr *Frame) invoke(st *State, call ssa.CallInstruction) []Term {
 func (fr *Frame) pureMethod(st *State, m *types.Func, recv Term, args []Term) []Term {
 	vc := fr.vc
 	res := vc.pureMethodTerms(st, m, recv, args)
+	vc.recordCallSyms(ifaceMethodKey(m), m.Type().(*types.Signature), res)
 	fr.pureMethodIdiom(st, m, res)
 	// configuration getters: results are trusted like entry-state values (see DESIGN: nil policy)
 	for _, r := range res {
